@@ -32,7 +32,7 @@ LEGACY_NAMES = {
 }
 MINORS = ["2.7", "3.0", "3.1", "3.6", "3.7", "3.8", "3.9", "3.10", "3.11", "3.12", "3.13", "4.0"]
 MICROS = [0, 1, 2, 10]
-PYV_LITS = MINORS + ["3", "2", "4"]
+PYV_LITS = MINORS + ["3", "2", "4"] + ["3.8.1", "3.8.0", "3.10.2"]  # X.Y.Z on python_version: valid PEP 508, seen in real metadata
 PYFV_LITS = [f"{m}.{z}" for m in ["2.7", "3.0", "3.7", "3.8", "3.9", "3.10", "3.12"] for z in MICROS] + ["3.7", "3.8", "3.9", "3.10", "2.7"] + ["3.9a1", "3.10.0rc1", "3.8.0b2"]
 REL_LITS = ["5.4", "5.4.0", "5.15.0", "6.0", "6.1", "10", "21.6.0", "6"]
 REL_VALUES = ["5.3", "5.4", "5.4.0", "5.4.1", "5.10.1", "5.15.0", "5.15.1", "6.0", "6.0.1", "6.1", "6.1.1", "9.9", "10", "10.0", "10.1", "21.6.0", "21.6.1", "22.0.0"]
